@@ -58,6 +58,7 @@ CONSTANTS PolSets,      \* sets of enabled policies explored
           MaxMsgs,
           WithDNSFail,  \* TRUE: also explore a failing MX lookup
           SlowSet,      \* values of the "TLSA lookup answers late" fact (non-last MX, dane enabled)
+          CnSet,        \* CNAME situations of an MX name explored (dane enabled), see RemoteObs
           Devs, Gen
 
 (* ---- named values for the constants (configuration files cannot spell records) ---- *)
@@ -74,6 +75,9 @@ QuickStlsCert == {SC("offered", "valid"), SC("offered", "selfsigned"), SC("strip
 TwoStlsCert == {SC("offered", "valid"), SC("stripped", "valid")}
 Kinds1 == {[reqtls |-> FALSE, tlsno |-> FALSE, quar |-> FALSE]}
 QuickTlsa == {"none", "ee_match", "servfail"}
+CnameTlsa == {"insecure", "none", "ee_match", "servfail"}
+AllCn == {"no", "sec", "half", "insec"}
+DaneOnly == {{"dane"}, {"dane", "local"}}
 AllTlsa == {"insecure", "none", "ee_match", "ta_match", "mismatch", "unusable", "servfail"}
 SmallTlsa == {"none", "ee_match", "mismatch", "servfail"}
 MK(r, n, q) == [reqtls |-> r, tlsno |-> n, quar |-> q]
@@ -98,16 +102,19 @@ NoConn == [mx |-> 0, tls |-> "none", mxl |-> 0, tll |-> 0, taint |-> {}]
 
 (* ---- the configuration space, built without irrelevant combinations ---- *)
 MXFacts(P, s, sl) ==
-  { [stls |-> x.stls, cert |-> x.cert, stsMatch |-> mt, tlsa |-> t, slow |-> w] :
-      x \in StlsCert,
-      mt \in (IF "mtasts" \in P /\ s # "none" THEN BOOLEAN ELSE {FALSE}),
-      t \in (IF "dane" \in P THEN TlsaSet ELSE {"insecure"}),
-      w \in (IF "dane" \in P THEN sl ELSE {FALSE}) }
+  UNION { { [stls |-> x.stls, cert |-> x.cert, stsMatch |-> mt, tlsa |-> t, slow |-> w, cn |-> c, tlsaC |-> tc] :
+              x \in StlsCert,
+              mt \in (IF "mtasts" \in P /\ s # "none" THEN BOOLEAN ELSE {FALSE}),
+              t \in (IF "dane" \in P /\ c # "insec" THEN TlsaSet ELSE {"insecure"}),
+              tc \in (IF c \in {"sec", "half"} THEN TlsaSet ELSE {"insecure"}),
+              w \in (IF "dane" \in P THEN sl ELSE {FALSE}) } :
+          c \in (IF "dane" \in P THEN CnSet ELSE {"no"}) }
 \* sequences of n MX candidates; only a non-last MX can answer late to any effect
 MXSeqs(P, s, n) ==
   IF n = 1 THEN {<<f>> : f \in MXFacts(P, s, {FALSE})}
   ELSE {<<f, g>> : f \in MXFacts(P, s, SlowSet), g \in MXFacts(P, s, {FALSE})}
-DefaultMX == [stls |-> "offered", cert |-> "valid", stsMatch |-> FALSE, tlsa |-> "insecure", slow |-> FALSE]
+DefaultMX == [stls |-> "offered", cert |-> "valid", stsMatch |-> FALSE, tlsa |-> "insecure", slow |-> FALSE,
+              cn |-> "no", tlsaC |-> "insecure"]
 MkCfg(P, a, b, ov, s, ad, d, ms) ==
   [pols |-> P, minTLS |-> a, minMX |-> b, override |-> ov, sts |-> s, adMX |-> ad, dns |-> d, mx |-> ms]
 
@@ -214,7 +221,7 @@ LookupFail(res) ==
 CheckMXCore(cross) ==
   /\ pc = "mx" /\ mxi <= NMX
   /\ LET r == CheckMXRes(mxi)
-         own == cfg.mx[mxi].tlsa IN
+         own == EffTLSA(cfg.mx[mxi]) IN   \* discoverTLSA: canonical name first, then the MX name
        /\ IF r.err # "none"
           THEN lastErr' = r.err /\ mxi' = mxi + 1 /\ UNCHANGED <<pc, lvl, att>>
           ELSE lvl' = r.lvl /\ pc' = "conn" /\ att' = "first" /\ UNCHANGED <<mxi, lastErr>>
@@ -259,11 +266,11 @@ CheckConn ==
        /\ IF r.err # "none"
           THEN lastErr' = r.err /\ mxi' = mxi + 1 /\ pc' = "mx" /\ conn' = NoConn
           ELSE /\ conn' = [conn EXCEPT !.mxl = lvl, !.tll = r.tll,
-                                       !.taint = IF "dane" \in Pol /\ tl # cfg.mx[conn.mx].tlsa
+                                       !.taint = IF "dane" \in Pol /\ tl # EffTLSA(cfg.mx[conn.mx])
                                                  THEN {"TlsaFutureShared"} ELSE {}]
                /\ pc' = "gate" /\ UNCHANGED <<mxi, lastErr>>
        \* waiting for the future consumes this MX's own pending lookup
-       /\ pend' = IF r.used /\ tl = cfg.mx[conn.mx].tlsa THEN "no" ELSE pend
+       /\ pend' = IF r.used /\ tl = EffTLSA(cfg.mx[conn.mx]) THEN "no" ELSE pend
   /\ UNCHANGED <<cfg, k, cur, att, lvl, pool, tl, devs, obs, hist>>
 
 Gate(res) ==
